@@ -752,7 +752,18 @@ def align_cases(tier, seed, mode):
             ["macro_list c 1 2 3 4 5", "append v0 c", "push v0 1", "extend v0 it[1,2,3,4,5,6,7,8,9,10,11,12,13,14,15,16,17]"],
             ["extend_from_slice v0 1 2 3", "clear v0", "shrink_to v0 0", "macro_repeat c 7 9", "append v0 c", "push v0 1", "push c 2"],
             ["extend_from_slice v0 1 2 3", "new d", "append d v0", "push v0 1", "extend v0 it[1,2,3,4,5,6,7,8,9,10,11,12,13,14,15,16,17]", "push d 1"],
-            ["extend_from_slice v0 1 2 3", "with_capacity d 0", "append d v0", "extend_from_slice v0 4 5 6 7 8 9", "clone_from d v0", "push d 1"]]
+            ["extend_from_slice v0 1 2 3", "with_capacity d 0", "append d v0", "extend_from_slice v0 4 5 6 7 8 9", "clone_from d v0", "push d 1"],
+            # an EMPTY vector that owns over-aligned storage (fresh, or filled and emptied) refilled beyond its capacity by one
+            # call: every way of doing that must keep the vector's own (over-aligned) storage class
+            ["splice v0 U U it[1,2,3,4,5,6,7,8,9] it", "drop it", "push v0 1", "reserve v0 40"],
+            ["push v0 1", "clear v0", "splice v0 U U it[1,2,3,4,5,6,7,8,9] it", "drop it", "push v0 1"],
+            ["push v0 1", "pop v0", "splice v0 I0 E0 it[1,2,3,4,5,6,7,8,9] it", "next it", "drop it", "shrink_to_fit v0", "push v0 1"],
+            ["deserialize_in_place v0 20 sq[1,2,3,4,5,6,7,8,9]", "push v0 1", "reserve v0 40"],
+            ["push v0 1", "truncate v0 0", "deserialize_in_place v0 1000000 sq[1,2,3,4,5,6,7,8,9]", "push v0 1"],
+            ["extend v0 it[1,2,3,4,5,6,7,8,9]", "clear v0", "extend_from_slice v0 1 2 3 4 5 6 7 8 9 10 11 12 13 14 15 16 17 18 19 20", "push v0 1"],
+            ["resize v0 9 1", "clear v0", "resize_with v0 40 g[1]", "push v0 1"],
+            ["macro_list c 1 2 3 4 5 6 7 8 9", "clone_from v0 c", "push v0 1", "clear v0", "collect d it[1,2,3,4,5,6,7,8,9,10,11,12,13,14,15,16,17,18,19,20]", "clone_from v0 d", "push v0 1"],
+            ["drain v0 U U it", "drop it", "extend v0 it[1,2,3,4,5,6,7,8,9]", "drain v0 U U it2", "drop it2", "splice v0 U U it[1,2,3,4,5,6,7,8,9,10,11,12,13,14,15,16,17,18,19,20] sp", "drop sp", "push v0 1"]]
     for cls in G.CLASSES:
         for a in aligns:
             for n in (0, 1, 4):
@@ -892,7 +903,7 @@ PROPS = {
             "partial_missing": ["proved: Drain (C05_drain_forget), Splice (C05_splice_forget) and DrainFilter with any predicate (C05_drain_filter_forget) after ANY steps: the vector left behind exposes only the untouched prefix / nothing; IntoIter owns its vector, forgetting it leaks everything (nothing stays observable): correspondence only"]},
     "C06": {"modules": ["MiniVecProof.Props.C06"],
             "cases": lambda tier, seed: [("debug", corpus("debug", "C06") + sentinel_sweep("debug") + soak(tier, seed, "debug", "C06", n=4000)), ("release", corpus("release", "C06") + sentinel_sweep("release"))],
-            "owned_oracles": ["X signal", "O ledger", "O alloc", "O vec-mismatch", "O view-mismatch", "O cmp-slice-mismatch", "sentinel-noalloc"], "owned_diffs": ["result", "contents", "panic", "alloc", "own", "ub", "crash", "cap"]},
+            "owned_oracles": ["X signal", "O ledger", "O alloc", "O vec-mismatch", "O view-mismatch", "O cmp-slice-mismatch", "sentinel-noalloc", "rejected-unchanged"], "owned_diffs": ["result", "contents", "panic", "alloc", "own", "ub", "crash", "cap"]},
     "C07": {"modules": ["MiniVecProof.Props.C07", "MiniVecProof.Props.C07Stable", "MiniVecProof.Props.C01"],
             "cases": lambda tier, seed: [(m, c + growth_cases(m) + fit_cases(m) + huge_cases(m) + refused_resize_cases(m)) for m, c in general(tier, seed, "C07", modes=("debug", "release"))],
             "owned_oracles": ["O cap", "reserve-contract", "stable", "log-resizes"], "owned_diffs": ["cap", "alloc"],
@@ -943,6 +954,8 @@ PROPS = {
 }
 
 import special as S
+for _p in ("C01", "C02", "C17"):
+    PROPS[_p]["special"] = S.mutcb
 PROPS["C13"] = {"modules": ["MiniVecProof.Props.C13"], "special": S.c13,
                 "partial_missing": ["rustc's layout algorithm is modelled (sum of field sizes rounded to the largest alignment, niche if a field has one), not verified; validated by compile-time assertions over a family of element types"]}
 PROPS["C15"] = {"modules": ["MiniVecProof.Props.C15"], "special": S.c15,
